@@ -66,8 +66,9 @@ namespace parmcb {
                             b.vertex_indices.begin(), b.vertex_indices.end(),
                             std::inserter(non_common_a, non_common_a.end()));
 
+                std::vector<std::size_t> unsorted_r12h(b.vertex_indices.rbegin(), b.vertex_indices.rend());   // R12h positive
                 std::set<std::size_t> non_common_b;
-                std::set_difference(b.vertex_indices.begin(), b.vertex_indices.end(), 
+                std::set_difference(unsorted_r12h.begin(), unsorted_r12h.end(), 
                             a.vertex_indices.begin(), a.vertex_indices.end(),
                             std::inserter(non_common_b, non_common_b.end()));
 
